@@ -142,9 +142,17 @@ class HllRecorder:
 
     def saveload(self, s, t, shm=False):
         p = impl.tmpfile()
-        self.slots[s].save(p)
-        self.slots[t] = impl.hyperloglog.HyperLogLog.load(p, shared_memory=shm)
-        os.unlink(p)
+        try:
+            self.slots[s].save(p)
+            new = impl.hyperloglog.HyperLogLog.load(p, shared_memory=shm)
+        except Exception as exc:
+            if impl.STRICT_PERSIST:
+                self.emit({"ev": "saveload_failed", "s": s + 1, "t": t + 1, "exc": repr(exc)[:200]})
+            return
+        finally:
+            if os.path.exists(p):
+                os.unlink(p)
+        self.slots[t] = new
         self.emit({"ev": "saveload", "s": s + 1, "t": t + 1})
 
     def query(self, s):
